@@ -30,11 +30,13 @@ CHECKS = {
     'C14': ('TLA+ Iter.tla cursor machine (TLC: every word over {next,next_back}) + IterTrace.tla: TLC recomputes the specification list by folding the policy spec over the path and validates every logged iterator run (12 families x lists x words) in every reachable state', '4 C14', 'model_checking', ''),
     'C18': ('fault enumeration driven by TLC-generated behaviours: for every reachable state x operation, the i-th call into user code of every kind (Hash, Eq, Clone, Drop, hasher, callback, KeyHasher) is made to panic for every i; TLC validates the TLA+ predicate C18Event (no double drop, nothing released or freed still reachable, no monitor anomaly) on the faulting call, on follow-up operations and on the final drop', '4 C18', 'fault_enumeration',
             'Every injection point (kind x ordinal of the user-code call) of every operation from every explored state is exercised once; the TLA+ ownership predicate is evaluated by TLC on every recorded event. Exhaustive over injection points per explored (state, operation); states are the first N of the TLC closure in the quick tier.'),
+    'C19': ('TLA+ Borrow.tla (loan / Send-Sync rules over the method table extracted from the sources); TLC enumerates every (method x program shape) and (type x marker x element kind) probe with its expected verdict; rustc compiles the rendered probes: a probe the model rejects but rustc accepts is a violation', '4 C19', 'other',
+            'Model-generated compile probes: the decision is made by rustc on programs enumerated by TLC from the borrow model; positive controls must compile. Covers the listed program shapes only (no laundering through closures/trait objects).'),
     'C20': ('TLA+ SampledLFU.tla (used defined as the sum of costs) + TLC closure + TLC trace validation of every transition and of fill_sample', '4 C20', 'model_checking', ''),
     'C15': ('TLA+ RawLRU.tla callback sequence + TLC trace validation (PROP=C15)', '4 C15', 'model_checking', ''),
 }
 NOT_YET = {}
-for p in ['C19']:
+for p in []:
     NOT_YET[p] = 'check under construction in this round (specification module and harness sub-command not committed yet); planned per DESIGN.md section 4'
 
 def main():
